@@ -32,8 +32,16 @@ Verdict(o) ==
         indom  |-> InDomain(init, des),
         nadm   |-> Cardinality(adm),
         wfail  |-> WriteFails(init, des),
-        member |-> [k \in DOMAIN o.outs |-> OutOf(o.outs[k]) \in adm],
-        post   |-> [k \in DOMAIN o.outs |-> PostOK(init, des, OutOf(o.outs[k]))]]
+        \* "partial" cases (observed through a caller that does not return the lists, e.g. a security
+        \* backend's Setup): only the directory and the error are compared
+        member |-> [k \in DOMAIN o.outs |->
+                      IF "partial" \in DOMAIN o
+                      THEN \E a \in adm : a.dir = DirOf(o.outs[k].dir) /\ a.err = o.outs[k].err
+                      ELSE OutOf(o.outs[k]) \in adm],
+        post   |-> [k \in DOMAIN o.outs |->
+                      IF "partial" \in DOMAIN o
+                      THEN PostDirOK(init, des, [dir |-> DirOf(o.outs[k].dir), err |-> o.outs[k].err])
+                      ELSE PostOK(init, des, OutOf(o.outs[k]))]]
 
 Table(obs) == [i \in DOMAIN obs |-> Verdict(obs[i])]
 \* evaluated exactly once, while TLC computes the single initial state (an ASSUME is evaluated twice)
